@@ -104,6 +104,11 @@ def check(ctx):
              "strings, D6 subscripted methods, D8, D12 complex reaching max/min/int")
     scope = build_scope(ctx)
     ctx.floor("scope", len(scope), 250)
+    # the outline is also changed through the Frame API (attach/detach/setUnder with its own loop check): same refusal duty
+    FrameC = ctx.cls("framing", "Frame")
+    for mn in ("attach", "detach", "checkLoop", "setUnder", "resolveOverLinks"):
+        mf = FrameC.own_method(mn)
+        scope.setdefault(repo.func_qual(mf), mf)
     base = {q: f for q, f in scope.items() if q.startswith("ioflo/base/")}
     for f in scope.values():
         ctx.functions.add(repo.func_qual(f))
